@@ -42,32 +42,28 @@ def rows(ctx: Ctx):
         cases = [(m, d, fns[0]) for m in msgs[:4 if quick else 6] for d in dsts[:2]]
         cases += [(rng.choice(msgs), d, f) for d in dsts[2:] for f in fns[:2]]
         cases += [(b"abc", dsts[0], f) for f in fns[1:]]
-        for (msg, dst, (hname, hfn)) in cases:
-            m = toy.private_module("py_ecc/bls/hash_to_curve.py", "py_ecc.bls")
-            I = Interner()
-            calls = []
+        # ONE private module for all cases of a group (state kept between calls must not leak)
+        m = toy.private_module("py_ecc/bls/hash_to_curve.py", "py_ecc.bls")
+        box = {"I": Interner(), "calls": [], "us": []}
 
-            def wrap(name, fn, pt_in=True, log=calls, intern=I):
-                def w(*a):
-                    res = fn(*a)
-                    if name == "hash_to_field":
-                        log.append({"fn": name, "in": [], "out": [intern(e) for e in res]})
-                    else:
-                        log.append({"fn": name, "in": [intern(x) for x in a], "out": [intern(res)]})
-                    return res
-                return w
-            h2f_name = "hash_to_field_FQ" if g == 1 else "hash_to_field_FQ2"
-            us = []
-            orig_h2f = getattr(m, h2f_name)
-
-            def h2f(*a, _o=orig_h2f):
-                res = _o(*a)
-                us.append(res)
+        def wrap(name, fn):
+            def w(*a):
+                res = fn(*a)
+                if name == "hash_to_field":
+                    box["us"].append(res)
+                    box["calls"].append({"fn": name, "in": [], "out": [box["I"](e) for e in res]})
+                else:
+                    box["calls"].append({"fn": name, "in": [box["I"](x) for x in a], "out": [box["I"](res)]})
                 return res
-            setattr(m, h2f_name, wrap("hash_to_field", h2f))
-            for nm in (f"map_to_curve_G{g}", f"clear_cofactor_G{g}"):
-                setattr(m, nm, wrap(nm, getattr(m, nm)))
-            m.add = wrap("add", m.add)
+            return w
+        h2f_name = "hash_to_field_FQ" if g == 1 else "hash_to_field_FQ2"
+        setattr(m, h2f_name, wrap("hash_to_field", getattr(m, h2f_name)))
+        for nm in (f"map_to_curve_G{g}", f"clear_cofactor_G{g}"):
+            setattr(m, nm, wrap(nm, getattr(m, nm)))
+        m.add = wrap("add", m.add)
+        for (msg, dst, (hname, hfn)) in cases:
+            box["I"], box["calls"], box["us"] = Interner(), [], []
+            I, calls, us = box["I"], box["calls"], box["us"]
             R = recording_hash(hfn)
             R.g = []
             row = {"op": "h2c", "g": g, "msg": list(msg), "dst": list(dst), "hash": hname}
